@@ -51,22 +51,22 @@ theorem flush_sizes (s : DAIndex.BSt) :
     positions are distinct -/
 structure SzInv (nxt : Nat) (s : DAIndex.BSt) : Prop where
   csz : s.cur.size < 1024
-  ex : ∃ lo, lo ≤ nxt ∧ 100 * cost s ≤ 102 * lo ∧
+  ex : ∃ lo, lo ≤ nxt ∧ 100 * cost s ≤ 102 * lo ∧ 16 * cost s + 9 * s.cur.size ≤ 9 * s.numPos + 16 * lo ∧
     (0 < s.cur.size → lo ≤ wordAt s.cur 0 ∧ wordAt s.cur 0 + s.cur.size ≤ nxt ∧ wordAt s.cur (s.cur.size - 1) + 1 ≤ nxt)
 
 theorem SzInv.init : SzInv 0 ⟨#[], #[], #[], #[], 0⟩ :=
-  ⟨by simp, 0, Nat.le_refl _, by simp [cost], fun h => by simp at h⟩
+  ⟨by simp, 0, Nat.le_refl _, by simp [cost], by simp [cost], fun h => by simp at h⟩
 
 theorem SzInv.mono {nxt nxt' : Nat} {s : DAIndex.BSt} (h : SzInv nxt s) (hle : nxt ≤ nxt') : SzInv nxt' s := by
-  obtain ⟨h1, lo, h2, h3, h4⟩ := h
-  refine ⟨h1, lo, by omega, h3, fun hp => ?_⟩
+  obtain ⟨h1, lo, h2, h3, h3', h4⟩ := h
+  refine ⟨h1, lo, by omega, h3, h3', fun hp => ?_⟩
   have := h4 hp
   omega
 
-set_option maxRecDepth 4000 in
+set_option maxRecDepth 10000 in
 theorem SzInv.push {nxt : Nat} {s : DAIndex.BSt} (h : SzInv nxt s) (p : Nat) (hp : nxt ≤ p) :
     SzInv (p + 1) (pushOne s p) := by
-  obtain ⟨h1, lo, h2, h3, h4⟩ := h
+  obtain ⟨h1, lo, h2, h3, h3', h4⟩ := h
   -- the open block after the push
   have hsz : (s.cur.push p).size = s.cur.size + 1 := Array.size_push ..
   have hlast : wordAt (s.cur.push p) ((s.cur.push p).size - 1) = p := by
@@ -87,19 +87,29 @@ theorem SzInv.push {nxt : Nat} {s : DAIndex.BSt} (h : SzInv nxt s) (p : Nat) (hp
     simp only [] at f1 f2 f3 f4
     rw [hlast, hsz, hfull] at f4
     rw [hsz, hfull] at f3
-    refine ⟨by simp [f1], p + 1, Nat.le_refl _, ?_, ?_⟩
+    refine ⟨by simp [f1], p + 1, Nat.le_refl _, ?_, ?_, ?_⟩
     · unfold cost at h3 ⊢
       simp only []
       rw [f2, f3]
       rcases f4 with ⟨_, f4⟩ | ⟨f4a, f4⟩
       · rw [f4]; clear f1 f2 f3 f4; omega
       · rw [f4]; clear f1 f2 f3 f4; omega
+    · unfold cost at h3' ⊢
+      simp only []
+      rw [f1, f2, f3]
+      have hnp : (DAIndex.flush { s with cur := s.cur.push p }).numPos = s.numPos := by
+        unfold DAIndex.flush; simp only []; split <;> rfl
+      rw [hnp]
+      rcases f4 with ⟨_, f4⟩ | ⟨f4a, f4⟩
+      · rw [f4]; clear f1 f2 f3 f4 hnp; simp only [List.size_toArray, List.length_nil]; omega
+      · rw [f4]; clear f1 f2 f3 f4 hnp; simp only [List.size_toArray, List.length_nil]; omega
     · intro hpos
       simp only [f1] at hpos
       simp at hpos
   · rw [if_neg hfull]
     rw [hB, hsz] at hfull
-    refine ⟨by simp only [hsz]; omega, lo, by omega, h3, ?_⟩
+    refine ⟨by simp only [hsz]; omega, lo, by omega, h3,
+      by show 16 * cost s + 9 * (s.cur.push p).size ≤ 9 * (s.numPos + 1) + 16 * lo; rw [hsz]; omega, ?_⟩
     intro _
     simp only []
     rw [hlast, hsz]
@@ -123,26 +133,56 @@ theorem SzInv.pushAll (bv : BV) (o : Bool) : ∀ (n lo : Nat) (s : DAIndex.BSt),
 
 /-- the closing flush of a partial block -/
 theorem SzInv.final {nxt : Nat} {s : DAIndex.BSt} (h : SzInv nxt s) :
-    100 * cost (if s.cur.size ≠ 0 then DAIndex.flush s else s) ≤ 102 * nxt + 8000 := by
-  obtain ⟨h1, lo, h2, h3, h4⟩ := h
+    100 * cost (if s.cur.size ≠ 0 then DAIndex.flush s else s) ≤ 102 * nxt + 8000 ∧
+    16 * cost (if s.cur.size ≠ 0 then DAIndex.flush s else s) ≤ 9 * s.numPos + 16 * nxt + 1280 := by
+  obtain ⟨h1, lo, h2, h3, h3', h4⟩ := h
   by_cases hc : s.cur.size ≠ 0
   · rw [if_pos hc]
     obtain ⟨f1, f2, f3, f4⟩ := flush_sizes s
     have := h4 (by omega)
-    unfold cost at h3 ⊢
+    unfold cost at h3 h3' ⊢
     rw [f2, f3]
     rcases f4 with ⟨_, f4⟩ | ⟨f4a, f4⟩
     · rw [f4]; omega
     · rw [f4]; omega
   · rw [if_neg hc]; omega
 
+theorem pushOne_numPos (s : DAIndex.BSt) (p : Nat) : (pushOne s p).numPos = s.numPos + 1 := by
+  unfold pushOne
+  simp only []
+  split
+  · unfold DAIndex.flush; simp only []; split <;> rfl
+  · rfl
+
+theorem pushAll_numPos : ∀ (L : List Nat) (s : DAIndex.BSt), (pushAll s L).numPos = s.numPos + L.length := by
+  intro L
+  induction L with
+  | nil => intro s; rfl
+  | cons p L ih => intro s; rw [pushAll_cons, ih, pushOne_numPos, List.length_cons]; omega
+
 /-- **inventories of one select index** (over the ones, `o = true`, or over the zeros): together at most
     `1.02·u + 80` bits -/
 theorem index_cost (c : Cfg) (bv : BV) (h : bv.Inv) (o : Bool) :
     100 * (64 * (DAIndex.build c bv o).blockInv.size + 16 * (DAIndex.build c bv o).subInv.size
       + 64 * (DAIndex.build c bv o).overflow.size) ≤ 102 * bv.len + 8000 := by
-  have := SzInv.final (SzInv.pushAll bv o bv.len 0 _ SzInv.init)
+  have := (SzInv.final (SzInv.pushAll bv o bv.len 0 _ SzInv.init)).1
   rw [Nat.zero_add, ← buildLoop_all c bv h o] at this
+  exact this
+
+/-- the same inventories charged to the indexed positions: `9/16` bit per position (dense part) plus one
+    bit per position of the vector (overflow of the sparse blocks), plus 80 -/
+theorem index_cost_pos (c : Cfg) (bv : BV) (h : bv.Inv) (o : Bool) :
+    16 * (64 * (DAIndex.build c bv o).blockInv.size + 16 * (DAIndex.build c bv o).subInv.size
+      + 64 * (DAIndex.build c bv o).overflow.size) ≤ 9 * (DAIndex.build c bv o).numPos + 16 * bv.len + 1280 := by
+  have := (SzInv.final (SzInv.pushAll bv o bv.len 0 _ SzInv.init)).2
+  rw [Nat.zero_add, ← buildLoop_all c bv h o] at this
+  have hnp : (DAIndex.build c bv o).numPos = (DAIndex.buildLoop c bv o 0 ⟨#[], #[], #[], #[], 0⟩ bv.words.size).numPos := by
+    unfold DAIndex.build
+    simp only []
+    split
+    · unfold DAIndex.flush; simp only []; split <;> rfl
+    · rfl
+  rw [hnp]
   exact this
 
 /-- **one select index**: `100·(8·size_in_bytes) ≤ 102·u + 34400` -/
